@@ -2,7 +2,14 @@
 
 package broker
 
-import "github.com/KafScale/platform/pkg/protocol"
+import (
+	"net"
+
+	"github.com/KafScale/platform/pkg/protocol"
+)
 
 // VerifBuildErrorResponse is what Server.handleConnection writes when Handler.Handle returns an error.
 func VerifBuildErrorResponse(header *protocol.RequestHeader) []byte { return buildErrorResponse(header) }
+
+// VerifServeConn runs the server's real connection loop (handleConnection) on conn.
+func VerifServeConn(s *Server, conn net.Conn) { s.handleConnection(conn) }
